@@ -7,6 +7,7 @@ import (
 	"fmt"
 	"net/netip"
 	"runtime"
+	"sort"
 	"sync"
 	"testing"
 	"testing/synctest"
@@ -20,15 +21,15 @@ import (
 )
 
 type MultiScenario struct {
-	Runs      []*Scenario  `json:"runs"`
-	StartUs   []int64      `json:"start_us"`
-	Scripts   []FlowScript `json:"scripts"`
-	EchoBase  uint32       `json:"echo_base"`
-	PktIDBase uint32       `json:"pktid_base"`
-	Sack      SackCfg      `json:"sack"`
-	SackAddr  string       `json:"sack_addr,omitempty"`
-	WriteLagUs int64       `json:"write_lag_us,omitempty"`
-	OneP       bool        `json:"one_p,omitempty"`
+	Runs       []*Scenario  `json:"runs"`
+	StartUs    []int64      `json:"start_us"`
+	Scripts    []FlowScript `json:"scripts"`
+	EchoBase   uint32       `json:"echo_base"`
+	PktIDBase  uint32       `json:"pktid_base"`
+	Sack       SackCfg      `json:"sack"`
+	SackAddr   string       `json:"sack_addr,omitempty"`
+	WriteLagUs int64        `json:"write_lag_us,omitempty"`
+	OneP       bool         `json:"one_p,omitempty"`
 }
 
 type multiOutcome struct {
@@ -271,6 +272,13 @@ func checkC11(t *testing.T, ms *MultiScenario, rec *Recorder) []Diff {
 			seen[id] = key
 		}
 	}
+	paris := map[uint16]bool{}
+	for i, sc := range ms.Runs {
+		if sc.Variant == "tcp-paris" && o.Runs[i] != nil {
+			paris[o.Runs[i].Source.Port] = true
+		}
+	}
+	ds = append(ds, ipidBlocksOverlap(o.Wire, paris)...)
 	// non-triviality: overlapping runs that each read traffic of another flow
 	overlap := 0
 	for i := range ms.Runs {
@@ -413,6 +421,9 @@ func TestC11Request(t *testing.T) {
 			}
 		}
 		ds := worldProblems(o.World, "C11")
+		if !p.Paris {
+			ds = append(ds, ipidBlocksOverlap(o.Wire, nil)...)
+		}
 		if bad := matchRunsToFlows(cands); bad >= 0 {
 			ds = append(ds, Diff{"C11", "not-isolated", fmt.Sprintf("run %d of the request reported %s which equals no flow's own scripted result", bad, describeRun(&o.Res.Traceroute.Runs[bad]))})
 		}
@@ -614,4 +625,62 @@ func TestC06Concurrent(t *testing.T) {
 		rec.Case(scenarioKey(ms), overlap >= 1, nil, fmt.Sprintf("one_p:%v", ms.OneP))
 		return ds
 	})
+}
+
+// ipidBlocksOverlap: "identifier ranges handed to concurrent runs do not overlap". For the TCP SYN variant
+// (non-Paris: IP-ID = block base + TTL) the identifiers a handle put on the wire while another handle was live
+// must be disjoint from that handle's, whatever the ports are. A handle is live from its first probe to its
+// Close. parisPorts: source ports of runs in Paris mode (one fixed IP-ID, no block).
+func ipidBlocksOverlap(w *Wire, parisPorts map[uint16]bool) []Diff {
+	type span struct {
+		from, to time.Duration
+		ids      map[uint16]int
+		ok       bool
+	}
+	spans := map[int]*span{}
+	for _, e := range w.Ledger {
+		if e.Kind != "sink" {
+			continue
+		}
+		sp := spans[e.Handle]
+		switch {
+		case e.Op == "WriteTo" && e.Probe != nil && e.Err == "":
+			p := e.Probe
+			if sp == nil {
+				sp = &span{from: e.At, to: e.At, ids: map[uint16]int{}, ok: true}
+				spans[e.Handle] = sp
+			}
+			if p.Kind != "tcp-syn" || p.IP.V6 || parisPorts[p.SPort] {
+				sp.ok = false
+				continue
+			}
+			sp.ids[p.IP.ID] = int(p.TTL)
+			sp.to = e.At
+		case e.Op == "Close" && sp != nil:
+			sp.to = e.At
+		}
+	}
+	var hs []int
+	for h, sp := range spans {
+		if sp.ok && len(sp.ids) > 0 {
+			hs = append(hs, h)
+		}
+	}
+	sort.Ints(hs)
+	var ds []Diff
+	for i, a := range hs {
+		for _, b := range hs[i+1:] {
+			x, y := spans[a], spans[b]
+			if !(x.from <= y.to && y.from <= x.to) {
+				continue
+			}
+			for id, ttl := range x.ids {
+				if ttl2, dup := y.ids[id]; dup {
+					ds = append(ds, Diff{"C11", "ipid-block-overlap", fmt.Sprintf("handles %d and %d were live at the same time (%v..%v and %v..%v) and both sent IP-ID %d (TTL %d and TTL %d): the identifier blocks of two concurrent runs overlap", a, b, x.from, x.to, y.from, y.to, id, ttl, ttl2)})
+					break
+				}
+			}
+		}
+	}
+	return ds
 }
